@@ -1,5 +1,6 @@
 import Nervus.Driver.Util
 import Nervus.Model.Handles
+import Nervus.Model.OpenRace
 /-!
   `handles` stream (C10): handles `A B C` of this process (proc 0) and `xopen` from another process
   (proc 1) on one path (path 0).  Model-out runs `Nervus.Handles.step` with the regenerated guard flag
@@ -38,6 +39,11 @@ def step (st : St) (ws : List String) : St × String × String × String :=
       | .ok id => (Handles.step guard osFlock m' (.close id)).1
       | _ => m'
     ({ st with m := m'' }, outcome o, specOpen st, "")
+  | ["race_open", _] | ["xrace", _] =>
+    -- racing creators: with lock-before-initialise on the path's single inode exactly one opener wins
+    -- (theorem `racing_creators_one_winner`; the first `lock` step always succeeds); otherwise the model
+    -- is nondeterministic and prints `?`
+    (st, if Generated.openTakesLock && Generated.openLockBeforeInit then "1" else "?", "1", "")
   | ["close", h] | ["drop", h] =>
     match st.names.lookup h with
     | some id =>
